@@ -392,9 +392,14 @@ def gen_history(rnd, length=12, with_restart=True, malformed=False, guess=True):
             nouns = [e for e in base["std"] if e["speech"] in ({"Noun": "Common"}, {"Noun": "Proper"})]
             if prev and rnd.random() < 0.2:
                 reqs.append(dict(rnd.choice(prev)))                       # the same registration again
-            elif nouns and rnd.random() < 0.15:
+            elif nouns and rnd.random() < 0.3:
                 e = rnd.choice(nouns)                                     # a word the system dictionary already holds
-                reqs.append({"kind": "register", "wkind": "CommonNoun" if e["speech"] == {"Noun": "Common"} else "ProperNoun", "reading": e["reading"], "word": e["stem"]})
+                same = rnd.random() < 0.5
+                kind_of = "CommonNoun" if (e["speech"] == {"Noun": "Common"}) == same else "ProperNoun"      # the same word again, or under the other kind of noun
+                reqs.append({"kind": "register", "wkind": kind_of, "reading": e["reading"], "word": e["stem"]})
+                reqs.append({"kind": "proper", "input": e["reading"]})            # proper-noun mode ranks a proper noun higher: the new entry shows there
+                reqs.append({"kind": "convert", "input": e["reading"], "context": "Normal"})
+                nconv += 2
             else:
                 reqs.append({"kind": "register", "wkind": wk, "reading": r, "word": w})
         elif k < 0.86:
